@@ -64,5 +64,5 @@ GNext ==
 
 GSpec == GInit /\ [][GNext]_gvars
 
-Emit == Terminated => PrintT(ToJson([size |-> Size, steps |-> hist]))
+Emit == Terminated => PrintT(ToJson([size |-> Size, dur0 |-> ZeroDuration, steps |-> hist]))
 =============================================================================
